@@ -84,7 +84,7 @@ def parse_attributes(clause):
         else:
             name, expr = groups(m, part)
 
-        if name in seen:
+        if name is not None and name in seen:
             raise LanguageError(
                 "Duplicate attribute name in attributes.", part)
 
